@@ -243,7 +243,8 @@ def run(ctx):
            + (ast.unparse(ap)[:120] if ap is not None else "nothing"), ao.lineno)
     nv = local_value(ao, "neg_inf")
     ctx.ob("R3.sentinel-headroom", PW, "align_optimal", "neg_inf = INT32_MIN - gap_open - gap_ext - min(0, min score)",
-           nv is not None and same_expr(nv, "np.iinfo(np.int32).min - gap_penalty[0] - gap_penalty[1] - (np.min(matrix.score_matrix()) if np.min(matrix.score_matrix()) < 0 else 0)"),
+           nv is not None and same_expr(nv, "(np.iinfo(np.int32).min - gap_penalty[0] - gap_penalty[1] - np.min(matrix.score_matrix())) if np.min(matrix.score_matrix()) < 0 "
+                                        "else (np.iinfo(np.int32).min - gap_penalty[0] - gap_penalty[1])"),
            "the 'minus infinity' of forbidden transitions must stay above INT32_MIN when a gap penalty or a negative score is added, and must not "
            "be raised by a positive minimum score (INT32_MIN - open - ext - positive wraps around to a huge positive score); the code computes "
            + (ast.unparse(nv)[:160] if nv is not None else "nothing"), ao.lineno)
